@@ -19,6 +19,18 @@ CLAIMED = {
         "the generator's own expectation is the spec oracle. Proof is the right level because the property quantifies over all programs/contexts; correspondence is exhaustive over the finite rule table."),
   technique="Lean 4 proof over hand model + exhaustive-table correspondence (translator for tables)",
   design="DESIGN.md section 7 C01"),
+ "C02": dict(
+  text=("Lean theorems over the model of the tester's nosec handling and of the comment mini-language (lean/Props/C02.lean): withheld_iff_spec_partial "
+        "(for ALL nosec maps, contexts and raw results: a finding is withheld iff a nosec comment on its reported line or line range is bare or names its test — "
+        "under the guard that at most one line of that span carries a nosec comment), withheld_only_if_covered, NEG_two_comments (kernel-checked witness of the known "
+        "two-comment defect), ignore_nosec_restores (the --ignore-nosec scan equals, event for event, the normal scan with every withheld finding restored unchanged — "
+        "by induction over the whole traversal), ignore_nosec_findings, counters_exact, afterMarker_isSome_iff (which comments are nosec comments), documented_examples / "
+        "comma_without_space (decide +kernel against the registry and character classes regenerated from /repo), regex_sources_known (pins the two regex sources the hand "
+        "model stands for). Correspondence on every run: ~470 programs (multi-finding statements on 1-5 lines x comment texts x placements) scanned with and without "
+        "--ignore-nosec by real bandit and the compiled Lean model (findings + both counters), 1500 random comments through _parse_nosec_comment vs the model, and an "
+        "independent spec oracle written from the documented grammar evaluated on the implementation's output."),
+  technique="Lean 4 proof (induction over traversal, case analysis on the tester) + differential correspondence",
+  design="DESIGN.md section 7 C02"),
 }
 
 REASON_PENDING = "check not built yet (work in progress; DESIGN.md section 11 gives the build order)"
